@@ -255,7 +255,8 @@ func ParseWithSpecialTableName(dest interface{}, cacheStore *sync.Map, namer Nam
 		prioritizedPrimaryField = schema.LookUpField("ID")
 	}
 
-	if prioritizedPrimaryField != nil {
+	// a field without column (`gorm:"-"`) can be found by its Go name, it is no primary key
+	if prioritizedPrimaryField != nil && prioritizedPrimaryField.DBName != "" {
 		if prioritizedPrimaryField.PrimaryKey {
 			schema.PrioritizedPrimaryField = prioritizedPrimaryField
 		} else if len(schema.PrimaryFields) == 0 {
